@@ -126,8 +126,8 @@ def history_sweep(ctx, n):
     py4hw = common.quiet_import()
     for k, hist in enumerate(L.history_cases(random.Random(ctx.seed * 300007 + 11), n)):
         res = L.run_codec_history(py4hw, hist)
-        ctx.count(('hist', hist['container'], hist['order'], hist['sim_points'], tuple(hist['pattern'])), n=max(res['cycles'], 1))
-        if k < 1: ctx.sample({'construction_history': {x: hist[x] for x in ('container', 'order', 'sim_points', 'pattern')}, 'log': res['log'][:4]})
+        ctx.count(('hist', hist['container'], hist['order'], hist['sim_points'], hist['clocking'], hist['drv_wire'], hist['drv_when'], tuple(hist['pattern'])), n=max(res['cycles'], 1))
+        if k < 1: ctx.sample({'construction_history': {x: hist[x] for x in ('container', 'order', 'sim_points', 'clocking', 'drv_wire', 'drv_when', 'pattern')}, 'log': res['log'][:4]})
         if res['bad']:
             return L.hist_replay(res)
     ctx.notes['construction_histories'] = n
@@ -219,7 +219,7 @@ def run(ctx):
         if isinstance(x, tuple) and found is None: found = x[1]
     if isinstance(qruns, tuple): qruns = []
     if found is None:
-        found = history_sweep(ctx, 32 if q else 320)
+        found = history_sweep(ctx, 48 if q else 480)
     ctx.log('real-block sweeps + construction histories: %s' % ('impl != spec' if found else 'impl = python copy of the spec'))
     if found is None and have_model:
         try:
